@@ -6,4 +6,4 @@ From Quiver Require Import Equal.
 Extraction Language OCaml.
 Extraction "extracted/equal_model.ml"
   values_equal erase evalue_eqb compute_canonical canonical_tuple wf_valueb update_tables
-  handle_equal create_ref run_mints.
+  handle_equal handle_not pin_matches create_ref run_mints.
